@@ -1,6 +1,8 @@
 import Rare.Proofs.C13Model
 import Rare.Model.C13Date
-import Rare.Props.C18
+import Rare.Proofs.C18Cal
+import Rare.Proofs.C18Layout
+import Rare.Proofs.C18RT
 /-!
 C13 `date` over the modelled `time.Parse`: the `layoutLib` plumbing, the order the closure computes
 on keys that parse with the inferred layout, and – composing with C18's format/parse round trip –
@@ -107,21 +109,34 @@ theorem dateUniform_real (layouts : List Bytes) (lay : Key → Option Bytes) (l 
 
 /-! ### one instant, several zones (composition with C18's round trip) -/
 
+/-- Layouts that carry the instant: full date, time of day to the second, a numeric zone offset and
+no two-digit year (the decidable classifier of C18, restated here so that this file depends on C18's
+proof files only). -/
+def carriesInstant (ts : List C18.Tok) : Bool :=
+  C18.holdsInstant ts && (C18.carries ts).contains 's' && !(C18.carries ts).contains 'y'
+
+open C18 in
+/-- The wall clock of an instant denotes that instant again. -/
+theorem wall_of_instant' (unix off : Int) : wallSeconds (civilOf unix off) - off = unix := by
+  have h := civil_roundtrip' (localDays unix off)
+  unfold wallSeconds civilOf
+  simp only
+  rw [h]
+  unfold localDays localSecs
+  omega
+
 open C18 in
 /-- For every layout of C18's round-trip class that carries the instant (date, time to the second,
 numeric offset, four-digit year), every instant `unix` and every zone offset (whole minutes,
 |off| < 25 h): the text `time.Format` prints for `unix` in that zone is read back by the modelled
-`time.Parse` as exactly `unix` – whatever the zone. -/
+`time.Parse` as exactly `unix` – whatever the zone.  (C18's `roundtrip_core` + the civil calendar.) -/
 theorem timeParseNs_format (layout : Bytes) (hRT : RT (tokenize layout) = true)
     (hC : carriesInstant (tokenize layout) = true) (unix off : Int) (abbr : Bytes) (hoff : OffOK off)
     (hy : 0 ≤ (civilOf unix off).y ∧ (civilOf unix off).y ≤ 9999)
     (habbr : Tok.std .tz ∈ tokenize layout → AbbrOK abbr off) :
     timeParseNs layout (formatLayout layout (timeVOf unix off abbr)) = some (unix * 1000000000) := by
-  obtain ⟨p, hp, hinst⟩ := instant_classifier_sound layout hRT hC unix off abbr hoff hy habbr
-  -- the nanoseconds: via the field-level round trip
-  have hC' := hC
-  simp only [carriesInstant, Bool.and_eq_true, Bool.not_eq_true'] at hC'
-  obtain ⟨⟨hI, _⟩, cy⟩ := hC'
+  simp only [carriesInstant, Bool.and_eq_true, Bool.not_eq_true'] at hC
+  obtain ⟨⟨hI, cs⟩, cy⟩ := hC
   have hs : 0 ≤ localSecs unix off ∧ localSecs unix off < 86400 := by unfold localSecs; omega
   have hc := civil_month_day (localDays unix off)
   have hvalid : (timeVOf unix off abbr).dt.valid := by
@@ -133,29 +148,37 @@ theorem timeParseNs_format (layout : Bytes) (hRT : RT (tokenize layout) = true)
       simp only [carries, List.mem_filterMap]
       exact ⟨_, hm, rfl⟩
     rw [List.contains_iff_mem.mpr this] at cy; cases cy
-  obtain ⟨p', hp', hdt, _⟩ := format_parse_roundtrip layout hRT hI (timeVOf unix off abbr) hvalid rfl
-    (weekday_range' _) hoff (fun hm => absurd hm hnoy) habbr
-  have hpp : p' = p := by
-    rw [hp] at hp'
-    cases hp'
-    rfl
-  subst hpp
-  have hns : p'.dt.ns = 0 := by
+  obtain ⟨p, hp, hdt, hinst⟩ := roundtrip_core (tokenize layout) hRT hI (timeVOf unix off abbr)
+    ⟨hvalid, rfl, weekday_range' _, hoff, fun hm => absurd hm hnoy, habbr⟩
+  have hprec : precOf (tokenize layout) = .second ∨ precOf (tokenize layout) = .nano := by
+    simp only [holdsInstant, Bool.and_eq_true] at hI
+    obtain ⟨⟨⟨⟨⟨cY, cM⟩, cD⟩, ch⟩, cm⟩, cz⟩ := hI
+    simp only [precOf, cY, cM, cD, ch, cm, cs, Bool.not_true, Bool.false_eq_true, if_false]
+    split <;> simp
+  have hwall : wallSeconds (truncTo (precOf (tokenize layout)) (timeVOf unix off abbr).dt) - (timeVOf unix off abbr).off = unix := by
+    have hw := wall_of_instant' unix off
+    rcases hprec with h | h <;> rw [h]
+    · simp only [wallSeconds, truncTo, timeVOf, civilOf, localSecs] at hw ⊢
+      exact hw
+    · exact hw
+  have hns : p.dt.ns = 0 := by
     rw [hdt]
     cases precOf (tokenize layout) <;> rfl
   -- the instant: `instantOf` with the location that matches whatever zone source the text has
-  have hw : wallSeconds p'.dt - parsedOffset p' = unix := by
-    have h := hinst 0 (match p'.zone with | .name n => n | _ => [])
+  have hw : wallSeconds p.dt - parsedOffset p = unix := by
+    have h := hinst 0 (match p.zone with | .name n => n | _ => [])
+    rw [hwall] at h
     unfold instantOf at h
     unfold parsedOffset
-    cases hz : p'.zone <;> simp only [hz] at h ⊢
+    cases hz : p.zone <;> simp only [hz] at h ⊢
     · simpa using h
     · simpa using h
     · simp only [if_true] at h
       simpa using h
     · simpa using h
+  have hp' : parseLayout layout (formatLayout layout (timeVOf unix off abbr)) = .ok p := hp
   unfold timeParseNs
-  rw [hp]
+  rw [hp']
   simp only [parsedNs, hw, hns, Int.add_zero]
 
 end Rare.C13
